@@ -339,7 +339,42 @@ func c15Compose(w *World, r *Recorder, sf *types.Named) {
 			def = b
 		}
 	}
-	if indef == nil || def == nil {
+	// fused form: one loop serves both encodings; the break-byte test and the
+	// test of the counter against the declared length are then the two
+	// program points at which the encoding must be the right one
+	var breakCmp, countCmp ssa.Instruction
+	if def == nil && indef != nil {
+		for blk := range loopInfoOf(indef).blocks {
+			for _, in := range blk.Instrs {
+				bo, ok := in.(*ssa.BinOp)
+				if !ok {
+					continue
+				}
+				switch bo.Op {
+				case token.EQL, token.NEQ:
+					for _, op := range []ssa.Value{bo.X, bo.Y} {
+						if c, ok := op.(*ssa.Const); ok && c.Value != nil && c.Value.Kind() == constant.Int {
+							if k, _ := constant.Int64Val(c.Value); k == 0xff {
+								breakCmp = bo
+							}
+						}
+					}
+				}
+				switch bo.Op {
+				case token.LSS, token.LEQ, token.GTR, token.GEQ, token.EQL, token.NEQ:
+					for _, op := range []ssa.Value{bo.X, bo.Y} {
+						if ex, ok := stripConv(op).(*ssa.Extract); ok && ex.Index == 0 {
+							if c, ok := ex.Tuple.(*ssa.Call); ok && c.Call.StaticCallee() == pai {
+								countCmp = bo
+							}
+						}
+					}
+				}
+			}
+		}
+	}
+	fused := breakCmp != nil && countCmp != nil
+	if !fused && (indef == nil || def == nil) {
 		r.Undecide("C15-H3", "FromCBOR#loops", w.FnPos(fn), "could not identify the definite and the indefinite (break-byte) loop")
 		return
 	}
@@ -357,7 +392,11 @@ func c15Compose(w *World, r *Recorder, sf *types.Named) {
 			return
 		}
 		b := in.Block()
-		if (b != indef && b != def) || in != b.Instrs[0] {
+		if fused {
+			if in != breakCmp && in != countCmp {
+				return
+			}
+		} else if (b != indef && b != def) || in != b.Instrs[0] {
 			return
 		}
 		if firstVisit[b] == nil {
@@ -393,7 +432,7 @@ func c15Compose(w *World, r *Recorder, sf *types.Named) {
 		if len(d) > 200 {
 			d = d[:200] + "…"
 		}
-		if b == indef {
+		if (!fused && b == indef) || (fused && in == breakCmp) {
 			toIndef = append(toIndef, entry{set, d})
 		} else {
 			toDef = append(toDef, entry{set, d})
@@ -1724,4 +1763,18 @@ func isDashPredicate(f *ssa.Function) bool {
 		}
 	}
 	return n > 0
+}
+
+// stripConv looks through numeric conversions and type changes.
+func stripConv(v ssa.Value) ssa.Value {
+	for {
+		switch x := v.(type) {
+		case *ssa.Convert:
+			v = x.X
+		case *ssa.ChangeType:
+			v = x.X
+		default:
+			return v
+		}
+	}
 }
